@@ -164,7 +164,9 @@ func NewPartition(period Period, interval Interval, last int) Partition {
 	}
 	var periods []Period
 	if interval == Once {
-		periods = append(periods, period)
+		if !period.End.Before(period.Start) {
+			periods = append(periods, period)
+		}
 	} else {
 		var start time.Time
 		var counter int
